@@ -326,6 +326,10 @@ def table_to_source_list(table, src_type=ComponentSource):
             if param in table.colnames:
                 # copy the value to our object
                 val = row[param]
+                # masked cells are missing values (astropy masks NaN / empty
+                # entries when reading): keep the default (nan / '')
+                if val is np.ma.masked:
+                    continue
                 # hack around float32's broken-ness
                 if isinstance(val, np.float32):
                     val = np.float64(val)
